@@ -299,7 +299,13 @@ func genApi(pkgs []*pkgInfo, out string) {
 func main() {
 	repo := flag.String("repo", "/repo", "repository root")
 	out := flag.String("out", "", "output directory for the generated Lean files")
+	skip := flag.String("skip", "", "comma-separated target functions to emit as untranslatable (their generated definition did not compile)")
 	flag.Parse()
+	for _, n := range strings.Split(*skip, ",") {
+		if n != "" {
+			skipFns[n] = true
+		}
+	}
 	if *out == "" {
 		fmt.Fprintln(os.Stderr, "usage: extract -repo DIR -out DIR")
 		os.Exit(2)
